@@ -193,7 +193,8 @@ def run(ctx):
         stats["timed_effects"] += info["timed_effects"]
         stats["timed_goals"] += len(P.timed_goals)
         cases.append(case)
-        owners.append({"P": P, "Q": Q, "mapping": mapping, "reader": "anml", "payload": payload, "info": info, "feats": feats})
+        owners.append({"P": P, "Q": Q, "mapping": mapping, "reader": "anml",
+                       "rebuild": (lambda P2, Q2, mapping=mapping: io.build_case(P2, Q2, key_from_mapping(mapping), depth, cap)[0]), "payload": payload, "info": info, "feats": feats})
     io.tick(ctx, "implementation runs")
     codes = ctx.coq_codes(cases, "Corr_C18.code", imports=io.IMPORTS, shard=8, label="c19") if cases else []
     io.tick(ctx, "coq")
